@@ -190,10 +190,20 @@ func USES(tier string, f func(Case)) {
 								variant = " submodule-alias"
 							}
 						}
-						w := ir.NewWorld(a, as, b)
+						mods := []*ir.Mod{a, as, b}
 						if has(ds, "split") {
-							w = ir.NewWorld(a, as, as2, b)
+							mods = []*ir.Mod{a, as, as2, b}
 						}
+						if (bi+si+sj)%4 == 3 && (ds == "as-top" || has(ds, "split")) {
+							// the grouping (written in the submodule) has a leaf whose type carries a
+							// prefix that the submodule binds to b and its owner to a third module
+							g.Kids = append(g.Kids, ir.Leaf("fp", "p:t"))
+							as.Alias = map[string]string{"p": "b"}
+							a.Alias = map[string]string{"p": "c"}
+							mods = append(mods, &ir.Mod{Name: "c", Body: []*ir.S{ir.Typedef("t", "uint8"), ir.Leaf("cpad", "string")}})
+							variant = " one-prefix-two-modules"
+						}
+						w := ir.NewWorld(mods...)
 						f(Case{Desc: fmt.Sprintf("T=%s body#%d def=%s uses=%s,%s%s", T, bi, ds, s1.id, s2.id, variant), W: w, Flags: flags, Sites: used})
 					}
 				}
